@@ -153,6 +153,15 @@ def _project_cases():
     for n in (3, 30):
         for fc in ("root-has-format-command", "root-has-black-options"):
             out.append({"proj": "nested-project", "n": n, "root": fc})
+    # black itself raises for the text of one file (fault injected at black.format_str inside the session's own process)
+    for order in ("fail-first", "fail-last", "fail-middle"):
+        for n in (3, 30):
+            out.append({"proj": "black-one-file-fails", "order": order, "n": n})
+    # monorepo: black is configured in the repository root, a package in between has a metadata-only pyproject.toml
+    for ll in (100, 60):
+        for n in (24, 30, 36):
+            for where in ("package", "root"):
+                out.append({"proj": "monorepo", "ll": ll, "n": n, "cwd": where})
     return out
 
 
@@ -186,6 +195,63 @@ def _judge_project(c):
             return ("clean-file-not-clean-afterwards", "the formatter failed for %s only, but %s is no longer formatted:\n%s" % (names[0], names[1], good[-400:]))
         if "Problems" not in r["out"]:
             return ("formatter-problem-not-reported", r["out"][-300:])
+        return None
+    if c["proj"] == "black-one-file-fails":
+        bad = clean + "\n\nMARK = 'poison_pill'\n"
+        order = {"fail-first": ("test_a.py", "test_b.py", "test_c.py"), "fail-last": ("test_c.py", "test_a.py", "test_b.py"), "fail-middle": ("test_b.py", "test_a.py", "test_c.py")}[c["order"]]
+        files = {order[0]: bad, order[1]: clean, order[2]: clean.replace("test_x", "test_y"), "pyproject.toml": ""}
+
+        def pre():
+            import black as _b
+
+            real = _b.format_str
+
+            def format_str(src, **kw):
+                if "poison_pill" in src:
+                    raise _b.InvalidInput("injected: black cannot format this text")
+                return real(src, **kw)
+
+            _b.format_str = format_str
+            return None
+
+        d = plugin.mk_project(files)
+        try:
+            r = plugin.session(d, ["--inline-snapshot=create,fix"], preexec=pre)
+            after = plugin.listing(d, text=True)
+        finally:
+            plugin.cleanup()
+        if plugin.internal_error(r["out"]):
+            return ("internal-error", r["out"][-600:])
+        for name in order[1:]:
+            good = after[name]
+            if good == files[name]:
+                return ("harness", "nothing changed in %s" % name)
+            if black.format_str(good, mode=mode) != good:
+                return ("clean-file-not-clean-afterwards", "black failed for %s only, but %s is no longer formatted:\n%s" % (order[0], name, good[-400:]))
+        return None
+    if c["proj"] == "monorepo":
+        import os
+
+        m2 = black.Mode(line_length=c["ll"])
+        b2 = "from inline_snapshot import snapshot\n\n\ndef test_x():\n    assert list(range(%d)) == snapshot([0])\n    assert 'a' == snapshot()\n" % c["n"]
+        clean2 = black.format_str(b2, mode=m2)
+        root = plugin.mk_project({})
+        repo = os.path.join(root, "repo")
+        plugin.write_files(repo, {"pyproject.toml": "[tool.black]\nline-length = %d\n" % c["ll"], ".git/HEAD": "ref: refs/heads/main\n",
+                                  "packages/foo/pyproject.toml": "[project]\nname = \"foo\"\nversion = \"1\"\n",
+                                  "packages/foo/tests/test_foo.py": clean2})
+        try:
+            cwd = os.path.join(repo, "packages/foo") if c["cwd"] == "package" else repo
+            r = plugin.session(cwd, ["--inline-snapshot=create,fix"] + (["tests"] if c["cwd"] == "package" else ["packages/foo/tests"]))
+            after = plugin.listing(repo, text=True)["packages/foo/tests/test_foo.py"]
+        finally:
+            plugin.cleanup()
+        if plugin.internal_error(r["out"]):
+            return ("internal-error", r["out"][-600:])
+        if after == clean2:
+            return ("harness", "nothing changed")
+        if black.format_str(after, mode=m2) != after:
+            return ("clean-file-not-clean-afterwards", "black is configured with line-length %d in the repository root:\n%s" % (c["ll"], after[-500:]))
         return None
     # nested project: pytest is started in the outer directory, the rootdir (pkg/) has its own pyproject.toml
     ugly = body.replace("assert 'a' == snapshot()", "assert 'a'  ==  snapshot()")
